@@ -257,7 +257,10 @@ func worldRelease(w *World) {
 			runID = cur.RunID
 			stopKA = make(chan struct{})
 			keepAlive(cur, stopKA)
-			if !regAll(cur, "after-heartbeat-timeout", 0) {
+			// with stream multiplexing a connection cut in the middle of a mux frame keeps the server's
+			// session reader busy until the mux keep-alive (30 s + 10 s write timeout) declares the
+			// transport dead; the session has not "ended" before that, so allow for it
+			if !regAll(cur, "after-heartbeat-timeout", 50*time.Second) {
 				return
 			}
 			w.Net.Partition(old.Node, false)
